@@ -75,10 +75,13 @@ def menu_entry(k):
     if kind == "blocks":
         m["entry"] = r.choice(["plain", "plain", "ad_nosr_norot", "ad_norot", "ad_norot"])
         m["n_sr_blocks"] = r.choice([1, 2, 3])
+        if random.Random(9100 + k).random() < 0.4:
+            # entry points without reconfiguration count a dead walker again in every later energy block
+            m["n_ene_blocks"] = 4
     if kind == "driver":
         m.update(R=r.choice([1, 2, 3]), n_blocks=r.choice([2, 3]), n_sr_blocks=r.choice([1, 2]), n_eql=1, n_ene_blocks_eql=1, n_sr_blocks_eql=r.choice([1, 2]),
                  ad_mode=None, orbital_rotation=True, do_sr=True)
-    return m
+    return lab.corner_override(m, k, 9)
 
 
 def _gen_faults(rng, cfg, nsteps, nslots=lab.N_FAULT_SLOTS):
@@ -102,7 +105,7 @@ def gen_cfg(seed, index, tier):
     if m["prop"] in PH:
         m["strength"] = rng.choice([0.1, 0.5, 1.0, 5.0, 20.0])
         m["mix"] = rng.choice([0.0, 0.2, 0.5, 0.9])
-        m["spin_dep"] = m["wt"] == "unrestricted" and rng.random() < 0.5
+        m["spin_dep"] = m["wt"] == "unrestricted" and rng.random() < 0.5 and m.get("trial") != "rhf"
     else:
         m["u"] = rng.choice([1.0, 4.0, 16.0, 64.0])
         m["u_1"] = rng.choice([0.0, 0.5, 2.0])
